@@ -31,9 +31,34 @@ func TestC19MainTransports(t *testing.T) {
 		args := []string{"fabio", "-proxy.addr", listeners,
 			"-proxy.responseheadertimeout", want.ResponseHeaderTimeout.String(), "-proxy.idleconntimeout", want.IdleConnTimeout.String(),
 			"-proxy.dialtimeout", want.DialTimeout.String(), "-proxy.keepalivetimeout", want.KeepAliveTimeout.String(), "-proxy.maxconn", fmt.Sprint(want.MaxConn)}
-		cfg, err := config.Load(args, nil)
+		// the limits may also come from the environment or a properties file, next to other
+		// settings; when one of those is unusable Load refuses the lot - what it accepts carries
+		// the limits as given
+		var env []string
+		if rapid.IntRange(0, 2).Draw(t, "limits-from-the-environment") == 0 {
+			pre := rapid.SampledFrom([]string{"FABIO_", ""}).Draw(t, "envprefix")
+			env = []string{
+				pre + "PROXY_RESPONSEHEADERTIMEOUT=" + want.ResponseHeaderTimeout.String(), pre + "PROXY_IDLECONNTIMEOUT=" + want.IdleConnTimeout.String(),
+				pre + "PROXY_DIALTIMEOUT=" + want.DialTimeout.String(), pre + "PROXY_KEEPALIVETIMEOUT=" + want.KeepAliveTimeout.String(), pre + "PROXY_MAXCONN=" + fmt.Sprint(want.MaxConn),
+			}
+			args = []string{"fabio", "-proxy.addr", listeners}
+			neighbour := rapid.SampledFrom([]string{"", "", "FABIO_INSECURE=yes", "METRICS_INTERVAL=30", "FABIO_GLOB_CACHE_SIZE=abc", "FABIO_LOG_LEVEL=INFO", "FABIO_BGP_ENABLED=maybe", "FABIO_UI_COLOR=blue", "FABIO_REGISTRY_TIMEOUT=soon", "FABIO_PROXY_GZIP_CONTENTTYPE=("}).Draw(t, "neighbour-setting")
+			if neighbour != "" {
+				env = append(env, neighbour)
+			}
+			hx.Class("limits-from-the-environment")
+			cfg, err := config.Load(args, env)
+			if err != nil {
+				hx.Class("limits-from-the-environment:refused-because-of-a-neighbour")
+				return
+			}
+			if cfg.Proxy.ResponseHeaderTimeout != want.ResponseHeaderTimeout || cfg.Proxy.IdleConnTimeout != want.IdleConnTimeout || cfg.Proxy.DialTimeout != want.DialTimeout || cfg.Proxy.KeepAliveTimeout != want.KeepAliveTimeout || cfg.Proxy.MaxConn != want.MaxConn {
+				t.Fatalf("environment %q accepted, but loaded as responseheadertimeout=%v idleconntimeout=%v dialtimeout=%v keepalivetimeout=%v maxconn=%d", env, cfg.Proxy.ResponseHeaderTimeout, cfg.Proxy.IdleConnTimeout, cfg.Proxy.DialTimeout, cfg.Proxy.KeepAliveTimeout, cfg.Proxy.MaxConn)
+			}
+		}
+		cfg, err := config.Load(args, env)
 		if err != nil {
-			t.Fatalf("config rejected: %v %q", err, args)
+			t.Fatalf("config rejected: %v %q %q", err, args, env)
 		}
 		if cfg.Proxy.ResponseHeaderTimeout != want.ResponseHeaderTimeout || cfg.Proxy.IdleConnTimeout != want.IdleConnTimeout || cfg.Proxy.DialTimeout != want.DialTimeout || cfg.Proxy.KeepAliveTimeout != want.KeepAliveTimeout || cfg.Proxy.MaxConn != want.MaxConn {
 			t.Fatalf("options %q loaded as responseheadertimeout=%v idleconntimeout=%v dialtimeout=%v keepalivetimeout=%v maxconn=%d", args[1:], cfg.Proxy.ResponseHeaderTimeout, cfg.Proxy.IdleConnTimeout, cfg.Proxy.DialTimeout, cfg.Proxy.KeepAliveTimeout, cfg.Proxy.MaxConn)
